@@ -8,6 +8,9 @@
 #include <occa/internal/utils/sys.hpp>
 #include <occa/internal/utils/env.hpp>
 #include <occa/internal/io.hpp>
+#ifdef LIBOCCA_OCCA_VERIF
+#  include <occa/internal/utils/verif.hpp>
+#endif
 
 namespace occa {
   //---[ Utils ]------------------------
@@ -103,6 +106,9 @@ namespace occa {
       return;
     }
     modeDevice->removeDeviceRef(this);
+#ifdef LIBOCCA_OCCA_VERIF
+    occa::verif::yieldPoint(occa::verif::yDeviceRemoveRef);
+#endif
     if (modeDevice->modeDevice_t::needsFree()) {
       free();
     }
